@@ -2,6 +2,7 @@ pub mod common;
 pub mod c01;
 pub mod cap;
 pub mod text;
+pub mod c05;
 pub mod c06;
 pub mod c07;
 pub mod c08;
@@ -10,6 +11,7 @@ pub mod c12;
 pub mod c13;
 pub mod c14;
 pub mod c15;
+pub mod c16;
 pub mod c18;
 pub mod c19;
 pub mod c20;
@@ -29,6 +31,7 @@ pub fn registry() -> Vec<PropEntry> {
         PropEntry { id: "C02", run: cap::c02_run, replay: cap::c02_replay },
         PropEntry { id: "C03", run: cap::c03_run, replay: cap::c03_replay },
         PropEntry { id: "C04", run: text::c04_run, replay: text::c04_replay },
+        PropEntry { id: "C05", run: c05::run, replay: c05::replay },
         PropEntry { id: "C06", run: c06::run, replay: c06::replay },
         PropEntry { id: "C07", run: c07::run, replay: c07::replay },
         PropEntry { id: "C08", run: c08::run, replay: c08::replay },
@@ -39,6 +42,7 @@ pub fn registry() -> Vec<PropEntry> {
         PropEntry { id: "C13", run: c13::run, replay: c13::replay },
         PropEntry { id: "C14", run: c14::run, replay: c14::replay },
         PropEntry { id: "C15", run: c15::run, replay: c15::replay },
+        PropEntry { id: "C16", run: c16::run, replay: c16::replay },
         PropEntry { id: "C17", run: text::c17_run, replay: text::c17_replay },
         PropEntry { id: "C18", run: c18::run, replay: c18::replay },
         PropEntry { id: "C19", run: c19::run, replay: c19::replay },
